@@ -29,6 +29,12 @@ type SimContext struct {
 	HardCap int64
 	HitCap  bool
 
+	// PanicAfter > 0: a poll made more than PanicAfter polls after the
+	// cancellation panics with RunawayPanic (the script ignores the
+	// context; this is the only way left to get control back).
+	PanicAfter int64
+	Runaway    bool
+
 	// Mutual-exclusion monitor (concurrency simulation only).
 	ownerTask, ownerOp int
 	closed             [16][2]int
@@ -36,6 +42,9 @@ type SimContext struct {
 	Overlap            bool
 	opSeq              [maxTasks]int
 }
+
+// RunawayPanic is the value SimContext panics with (see PanicAfter).
+const RunawayPanic = "verifsim: context still polled long after cancellation"
 
 // NewSimContext returns a context that is cancelled when its clock passes
 // cancelAt (cancelAt = 0: the very first poll already sees it cancelled);
@@ -54,6 +63,7 @@ func (c *SimContext) Rearm(cancelAt int64) {
 	c.Clock, c.Polls, c.PollsAfter, c.FiredAt = 0, 0, 0, 0
 	c.CancelAt = cancelAt
 	c.HitCap = false
+	c.Runaway = false
 }
 
 //go:norace
@@ -95,6 +105,10 @@ func (c *SimContext) Advance(n int64) {
 func (c *SimContext) tick() {
 	if c.fired {
 		c.PollsAfter++
+		if c.PanicAfter > 0 && c.PollsAfter > c.PanicAfter {
+			c.Runaway = true
+			panic(RunawayPanic)
+		}
 	}
 	c.Polls++
 	c.Clock++
